@@ -4,6 +4,7 @@
 import ErgoProofs.Lemmas.PathThm
 import ErgoProofs.Lemmas.ReachInv
 import ErgoProofs.Lemmas.PropsAux
+import ErgoProofs.Lemmas.UrlThm
 namespace Ergo
 
 /-- Go's Clean puts every surviving ".." in front: a cleaned relative path is k × ".." followed by plain names -/
@@ -52,5 +53,28 @@ theorem C20_compact_keeps_results (log : List Event) (h : ReachOK log) :
   cases h1' : g'.find? id <;> cases h2' : g.find? id <;> simp [h1', h2'] at this ⊢
   simp [obsTask] at this
   exact this.2.2.2.2.2.2.2.2.2.2.2
+
+
+/-! ### the derived `file://` URL (ErgoModel.Url, tied to `deriveFileURL` by fn-path) -/
+
+/-- with an absolute project directory — which `resolveErgoDir` always returns (C18) — the URL is `file:///…`, from any working directory
+    and for any spelling of the relative path -/
+theorem C20_file_url_absolute (repo rel : Path.P) (habs : Path.isAbs repo = true) :
+    ∃ rest, Url.fileURL repo rel = Url.scheme ++ 47 :: rest :=
+  Url.fileURL_absolute repo rel habs
+
+/-- it is the escaped UTF-8 of the *cleaned* join (no `.`, `..` or empty component survives) … -/
+theorem C20_file_url_of_clean (repo rel : Path.P) (habs : Path.isAbs repo = true) (hb : ∀ c ∈ Path.join [repo, rel], c ≠ '\\') :
+    Url.fileURL repo rel = Url.scheme ++ Url.escapePath (Url.utf8 (Path.join [repo, rel])) :=
+  Url.fileURL_of_clean repo rel habs hb
+
+/-- … a single printable ASCII token (no space, control character, quote, angle bracket, backslash or byte ≥ 128) … -/
+theorem C20_file_url_is_one_token (bs : Url.Bytes) :
+    ∀ b ∈ Url.escapePath bs, 33 ≤ b ∧ b ≤ 126 ∧ b ≠ 34 ∧ b ≠ 60 ∧ b ≠ 62 ∧ b ≠ 92 :=
+  fun b hb => Url.urlByte_printable b (Url.escapePath_bytes bs b hb)
+
+/-- … from which the path is recovered exactly: different paths have different URLs -/
+theorem C20_file_url_roundtrip (bs : Url.Bytes) : Url.unescape (Url.escapePath bs) = some bs :=
+  Url.unescape_escapePath bs
 
 end Ergo
